@@ -512,6 +512,43 @@ class Flow:
                 return False
         return _R()
 
+    def _live_blocks(self):
+        lb = getattr(self, '_live_cache', None)
+        if lb is None:
+            lb = self._live_cache = frozenset(self.cfg.reachable())
+        return lb
+
+    def const_def_blocks(self, op):
+        """[(constant, block)] of the constant assignments that can define the operand (the blocks that origins() does not keep
+        for constants): where a bool built by control flow (`a && b`, a fused `all(..)`) gets its true / false"""
+        self.const_blocks = []
+        try:
+            self.origins(op)
+            return list(self.const_blocks)
+        finally:
+            self.const_blocks = None
+
+    def control_tests(self, op, depth=2):
+        """switch blocks that decide WHICH constant the operand gets: from one of their successors some, but not all, of the
+        operand's constant definitions are reachable (control dependence, approximated by reachability)"""
+        defs_ = {bb for _, bb in self.const_def_blocks(op) if bb is not None}
+        out = []
+        if len(defs_) < 2:
+            return out
+        for wb in sorted(self.cfg.reachable()):
+            t = self.body.blocks[wb]['term']
+            if t['k'] != 'switch' or t['on']['k'] == 'const':
+                continue
+            sets_ = []
+            for tb in [tb for _, tb in t['targets']] + [t['otherwise']]:
+                if self.body.blocks[tb]['term']['k'] == 'unreachable':
+                    continue
+                r = self.cfg.reach(tb, cut_blocks=[wb])
+                sets_.append(frozenset(defs_ & r))
+            if len(set(sets_)) > 1:
+                out.append((wb, t))
+        return out
+
     def only_through(self, edges):
         """blocks that can be reached only through one of `edges`"""
         return {bi for bi in self.cfg.reachable() if self.cfg.edges_guard(edges, bi)}
@@ -570,9 +607,12 @@ class Flow:
         ds = self.defs.get(l, [])
         if not ds and not (1 <= l <= b.argc):
             out.add(Origin('unknown', l, path, None))
+        live_ = self._live_blocks()
         for (bb, idx, kind, data, dproj) in ds:
             if bb in self.exclude_blocks:
                 continue        # edge-specialised view (see `restricted`): this definition cannot have run
+            if bb not in live_:
+                continue        # a block nothing reaches (the arm a folded / threaded test left behind) defines nothing
             # definition through a projection (x.f = v): only relevant if the path starts with f
             dpath = []
             for e in dproj:
@@ -686,6 +726,8 @@ class Flow:
         k = rv['k']
         if k in ('use', 'cast'):
             o = rv['ops'][0]
+            if o['k'] == 'const' and getattr(self, 'const_blocks', None) is not None:
+                self.const_blocks.append((o.get('v', o.get('dbg')), bb))
             for x in self.origins(o, path, depth, interproc, seen, mut_calls):
                 out.add(x)
         elif k in ('ref', 'rawptr', 'discr'):
